@@ -305,6 +305,14 @@ func backSliceKeys(v ssa.Value, visit func(ssa.Value) bool) {
 				if st, ok := r.(*ssa.Store); ok && st.Addr == ssa.Value(x) {
 					rec(st.Val, d+1)
 				}
+				// elements of an array literal (varargs)
+				if ia, ok := r.(*ssa.IndexAddr); ok {
+					for _, rr := range *ia.Referrers() {
+						if st, ok := rr.(*ssa.Store); ok && st.Addr == ssa.Value(ia) {
+							rec(st.Val, d+1)
+						}
+					}
+				}
 			}
 		}
 	}
